@@ -773,6 +773,13 @@ carries the client's id), `rd` its RD bit. -/
 def failoverWrite (servers : List FoOutcome) (m : FoMsg) (rd : Bool) : FoMsg :=
   if servers.isEmpty || m.rcode != 2 || !rd then m else failoverLoop m servers none
 
+/-- `forwarder.ServeDNS`: the same loop over the configured upstreams (UDP, DoT,
+DoH); `resp.Id = req.Id` with the CLIENT's request, whose id no exchange may
+change; when nothing usable came back the retained failure or the
+`CancelWithRcode(SERVFAIL)` reply leaves -/
+def forwardWrite (servers : List FoOutcome) (reqId : Nat) : FoMsg :=
+  failoverLoop { id := reqId, rcode := 2, mark := 0 } servers none
+
 /-! ### the pipeline's chain pool (`Pipeline.NewChain / PutChain`, `Server.serveMsgBy`, `pipelineQueryer.Query`)
 
 `sync.Pool` as a bag of chain pointers; a request draws one (or a fresh one)
